@@ -76,7 +76,6 @@ func (fe *FE) emitOpts(ob *Obligation, noQuant bool) string {
 		}
 	}
 	if strings.Contains(bs, "kindName") {
-		sb.WriteString("(declare-fun kindName (Int) Str)\n")
 		for k, nm := range reflectKindNames {
 			fmt.Fprintf(&sb, "(assert (= (kindName %d) %s))\n", k, fe.strLits[nm])
 		}
